@@ -5,6 +5,7 @@ import (
 	"errors"
 	"fmt"
 	"io"
+	"net"
 
 	"github.com/jeroenrinzema/psql-wire/codes"
 	psqlerr "github.com/jeroenrinzema/psql-wire/errors"
@@ -47,12 +48,12 @@ type vWorld struct {
 	stmts  []*vStmtInfo // every statement ever returned by the ParseFn stub
 
 	// behaviour menus (sizes chosen per harness)
-	parseMenu int // ParseFn outcomes: 0 error, 1 one stmt/1 col, 2 one stmt/0 cols, 3 zero stmts, 4 two stmts, 5 one stmt/empty non-nil cols
-	execMenu  int // statement fn outcomes: 0 one row + Complete, 1 error, 2 Complete only, 3 row then error
-	lastParse []*vStmtInfo
-	lastParseErr bool
-	errKind   int
-	errChosen bool
+	parseMenu     int // ParseFn outcomes: 0 error, 1 one stmt/1 col, 2 one stmt/0 cols, 3 zero stmts, 4 two stmts, 5 one stmt/empty non-nil cols
+	execMenu      int // statement fn outcomes: 0 one row + Complete, 1 error, 2 Complete only, 3 row then error
+	lastParse     []*vStmtInfo
+	lastParseErr  bool
+	errKind       int
+	errChosen     bool
 	freshWriters  []bool
 	countersRight []bool
 }
@@ -71,7 +72,7 @@ func (w *vWorld) cbErr(dflt error) error {
 		return dflt
 	}
 	if !w.errChosen {
-		w.errKind, w.errChosen = vChoose(11), true
+		w.errKind, w.errChosen = vChoose(14), true
 	}
 	switch w.errKind {
 	case 1:
@@ -96,6 +97,12 @@ func (w *vWorld) cbErr(dflt error) error {
 		return psqlerr.WithSeverity(dflt, psqlerr.LevelFatal)
 	case 10:
 		return psqlerr.WithHint(psqlerr.WithSeverity(dflt, psqlerr.LevelLog), "hint")
+	case 11: // the handler's own I/O ended short (a file, an upstream connection)
+		return fmt.Errorf("upstream: %w", io.ErrUnexpectedEOF)
+	case 12:
+		return fmt.Errorf("upstream: %w", net.ErrClosed)
+	case 13:
+		return fmt.Errorf("upstream: %w", io.EOF)
 	}
 	return dflt
 }
@@ -673,7 +680,14 @@ func VerifH06p() {
 		op = vMsgBytes('C', vCat([]byte{'P'}, vCStr(nil)))
 	}
 	sync := vMsgBytes('S', nil)
-	input := vCat(vMsgBytes('E', vCat(vCStr(nil), vU32(0))), sync, op, sync)
+	// the first Execute may also name a portal that does not exist (while another
+	// one is bound): one ErrorResponse, and again nothing stays locked behind it
+	unknownFirst := nondetBool()
+	first := vMsgBytes('E', vCat(vCStr(nil), vU32(0)))
+	if unknownFirst {
+		first = vMsgBytes('E', vCat(vCStr([]byte("x")), vU32(0)))
+	}
+	input := vCat(first, sync, op, sync)
 	w := vNewWorld(input, 64)
 	w.execMenu = 6
 	stmt := w.mkStmt(1, 0)
@@ -685,7 +699,12 @@ func VerifH06p() {
 	w.conn.out = nil
 	got, err := w.step()
 	vAssert("connection-stays-up", err == nil)
-	vAssert("first-execute-reply", got == vRowsOf(info))
+	if unknownFirst {
+		vAssert("execute-of-an-unknown-portal-is-one-error", got == "E")
+		vReach("unknown-portal-executed-while-another-is-bound")
+	} else {
+		vAssert("first-execute-reply", got == vRowsOf(info))
+	}
 	got, err = w.step()
 	vAssert("sync-ready", err == nil && got == "Z")
 	got, err = w.step()
